@@ -111,7 +111,10 @@ def crash_case(plan, split, scenario):
         if hasold:
             child("store", d, split, "False", "old", json.dumps(["none"]), "A")
         ow = {"new": "False", "overwrite": "True", "improved": "improved"}[scenario]
-        r, rc = child("store", d, split, ow, "new", json.dumps(plan), "A")
+        if plan[0] == "two-writers":
+            r, rc = child("store2", d, split, "A")
+        else:
+            r, rc = child("store", d, split, ow, "new", json.dumps(plan), "A")
         info["writer"] = r
         info["crashed"] = bool(r.get("crashed"))
         final = file_state(d, hp["A"])
@@ -228,6 +231,9 @@ def run(run):
         keep = [j for j in jobs if j[2] == "overwrite" and j[1]] + rng.sample([j for j in jobs if not (j[2] == "overwrite" and j[1])], 10) \
             + [j for j in jobs if j[0][0] == "raise" and j[2] == "new" and not j[1]]
         jobs = keep
+    # two workers forked from one process share the optimizer object they inherited; one is killed right after opening its
+    # temporary file while the other is about to move its complete entry into place (conformance only: DiskCrash.tla has one writer)
+    jobs += [(["two-writers"], True, "new"), (["two-writers"], False, "new")]
     with ThreadPoolExecutor(10) as ex:
         outs = list(ex.map(lambda j: crash_case(*j), jobs))
         sys_outs = list(ex.map(syscall_case, [True, False]))
